@@ -12,8 +12,20 @@ def codec : ManyCodec := roaringCodec
 
 def showDs (d : Datasets) : String := s!"{d.variant}:{showNats d.ids}"
 
+/-- digest of a large table: number of keys, number of postings, XOR and sum (mod 2^64) of
+`key * (id + 1) mod 2^64` over the postings -/
+def digest (t : List (Nat × List Nat)) : String :=
+  let r := t.foldl (fun (acc : Nat × Nat × Nat) (e : Nat × List Nat) =>
+    e.2.foldl (fun (acc : Nat × Nat × Nat) id =>
+      let v := (e.1 * (id + 1)) % 18446744073709551616
+      (acc.1 + 1, acc.2.1 ^^^ v, (acc.2.2 + v) % 18446744073709551616)) acc) (0, 0, 0)
+  s!"n={t.length} p={r.1} x={r.2.1} s={r.2.2}"
+
+/-- a table `hash ↦ ids`: the exact list up to 100 keys, the digest beyond -/
 def showTable (t : List (Nat × List Nat)) : String :=
-  if t.isEmpty then "-" else ";".intercalate (t.map (fun (h, ids) => s!"{h}:{showNats ids}"))
+  if t.isEmpty then "-"
+  else if t.length ≤ 100 then ";".intercalate (t.map (fun (h, ids) => s!"{h}:{showNats ids}"))
+  else digest t
 
 def fnv64 (bs : Bytes) : Nat :=
   bs.foldl (fun h b => ((h ^^^ b) * 1099511628211) % 18446744073709551616) 14695981039346656037
